@@ -4,6 +4,7 @@ import (
 	"context"
 	"fmt"
 	"net"
+	"os"
 	"regexp"
 	"runtime/debug"
 	"strings"
@@ -113,10 +114,16 @@ func bufconnMain() *wres {
 		err error
 		pan *panicRec
 	}
+	var tReset, tSvc, tCall, tBuild time.Duration
+	defer func() { fmt.Fprintln(os.Stderr, "TIMES reset", tReset, "svc", tSvc, "call", tCall, "build", tBuild) }()
 	for si, sh := range shapes {
+		if si > 3000 {
+			break
+		}
 		g := sch.getter(sh)
 		for _, cons := range []bool{false, true} {
 			variant := "raw"
+			t0 := time.Now()
 			msg := buildVertex(g, "Vertex.", cons, tipW)
 			if cons {
 				variant = "consistently-signed"
@@ -125,6 +132,8 @@ func bufconnMain() *wres {
 					continue
 				}
 			}
+			tBuild += time.Since(t0)
+			t0 = time.Now()
 			ctx, cancel := context.WithCancel(context.Background())
 			if err := fn.Book.VerifReset(ctx, 0); err != nil {
 				res.Err = "bufconn: reset: " + err.Error()
@@ -132,7 +141,11 @@ func bufconnMain() *wres {
 				return res
 			}
 			jb := &joinBook{AccountingBook: fn.Book, done: make(chan *panicRec, 1)}
+			tReset += time.Since(t0)
+			t0 = time.Now()
 			resetServices(fn, ctx, ver, jb, opts)
+			tSvc += time.Since(t0)
+			t0 = time.Now()
 			es.script = append(append([]*pb.Vertex{}, valid...), msg)
 			ch := make(chan outcome, 1)
 			go func() {
@@ -161,6 +174,7 @@ func bufconnMain() *wres {
 				}
 			}
 			cancel()
+			tCall += time.Since(t0)
 			st.Shapes++
 			ws := witnessOf(d, "fresh node syncing from a peer that streams S1 + this vertex", sh, variant, nil)
 			switch {
